@@ -434,7 +434,7 @@ func TestCheck(t *testing.T) {
 		for _, lim := range []int{0, -1, 4, math.MaxInt, math.MaxInt - 1, 1 << 31, 1 << 32} {
 			restore := setLimit(lim)
 			r.Serial(func(w *vkit.W) {
-				for _, text := range ref.ConventionalTexts {
+				for _, text := range append(append([]string{}, ref.ConventionalTexts...), ref.Wrapped("IX", "mcmxciv", "")...) {
 					for _, rule := range rules {
 						judge(Case{Text: vkit.B(text), Rule: rule, Limit: lim}, w)
 						w.EvalRandom(vkit.Hash64("W", text, strconv.Itoa(rule), strconv.Itoa(lim)), true)
